@@ -767,6 +767,28 @@ class _SibInterp(FinamInterp):
         return super().call(fv, args, kwargs, node, mod)
 
 
+class _MeshDimInterp(_SibInterp):
+    """Concrete node counts: arrays of them are lists, comparisons with a number are element-wise, sums count."""
+
+    def ext_call(self, name, args, kwargs, node):
+        short = name.split(".")[-1]
+        if short in ("array", "asarray", "atleast_1d") and args and isinstance(args[0], (tuple, list)):
+            return list(args[0])
+        if short in ("sum", "count_nonzero") and args and isinstance(args[0], list):
+            return sum(int(x) for x in args[0]) if short == "sum" else sum(1 for x in args[0] if x)
+        if short in ("min", "amin", "max", "amax") and args and isinstance(args[0], (list, tuple)):
+            return (min if "min" in short else max)(args[0])
+        return super().ext_call(name, args, kwargs, node)
+
+    def sym_compare(self, op, left, right, node):
+        if isinstance(left, list) and isinstance(right, int):
+            import operator
+            table = {ast.Gt: operator.gt, ast.GtE: operator.ge, ast.Lt: operator.lt, ast.LtE: operator.le, ast.Eq: operator.eq, ast.NotEq: operator.ne}
+            if type(op) in table:
+                return [table[type(op)](x, right) for x in left]
+        return super().sym_compare(op, left, right, node)
+
+
 def r32_gridsib(repo, sink):
     """Sibling agreement by abstract evaluation of the StructuredGrid getters for every
     layout: data_shape / data_axes / points / cells / cell_centers / data_points."""
@@ -871,6 +893,27 @@ def r32_gridsib(repo, sink):
         sink.check(ok, "R32", "cell_axes-midpoints", ca, ok="cell axes are the midpoints of neighbouring nodes", bad=f"cell_axes computes {got!r}, not (ax[:-1] + ax[1:]) / 2")
     except (Raised, Undecided, AnalysisError) as exc:
         sink.unknown("R32", "cell_axes-midpoints", ca, f"cell_axes outside vocabulary: {exc}")
+    # the cell dimension (it selects the cell type and so the number of nodes per cell) counts the axes with more than one node:
+    # gen_cells drops every flat axis (R32 cell-corners cases), so the two agree only with exactly this count - also for two flat axes
+    md = repo.resolve(c, "mesh_dim", "getter")
+    if md is not None:
+        worst_md = None
+        n_md = 0
+        try:
+            for dims in ((5,), (1,), (5, 4), (5, 1), (1, 4), (1, 1), (5, 4, 3), (5, 4, 1), (5, 1, 3), (1, 4, 3), (1, 1, 4), (1, 4, 1), (4, 1, 1), (1, 1, 1)):
+                g = Obj(cls=c, label="grid")
+                g.fields.update(dims=dims, dim=len(dims))
+                got = _MeshDimInterp(repo).run(md, [], self_obj=g)
+                n_md += 1
+                want = sum(1 for d in dims if d > 1)
+                if not (isinstance(got, int) and not isinstance(got, bool) and got == want):
+                    worst_md = worst_md or (f"node counts {dims}: mesh_dim is {got!r}, the cells generated for these extents are {want}-dimensional "
+                                            "(every flat axis is dropped): cell_types / cell_node_counts disagree with the connectivity")
+            sink.check(worst_md is None, "R32", "mesh_dim:flat-axes", md,
+                       ok=f"{n_md} extents (1-3D, zero to three flat axes): the cell dimension is the number of axes with more than one node",
+                       bad=worst_md or "")
+        except (Raised, Undecided, AnalysisError, TypeError, KeyError) as exc:
+            sink.unknown("R32", "mesh_dim:flat-axes", md, f"mesh_dim outside vocabulary: {exc}")
     # data-location validation, casts, gen_points and order_map: abstract runs in rules/grid2.py
     from . import grid2
     grid2.r32p(repo, sink)
